@@ -1,12 +1,15 @@
 (* C16 - source literals and Python values denote the same terms (source side).
    Only statements; every proof is `exact <lemma>` to a lemma proved in Lang/.
-   The run-time half (to_python, atom table per engine, unification of API-built terms with compiled
-   literals) is checked on the implementation by harness/props/c16.py against values computed from the
-   model AST. *)
+   Source side: Lang/Literals.v (lexer / unquote / visitor).  Run-time side: Lang/Denote.v -- the expression
+   yp_generator.compile_expression emits for a literal (Comp/CompileBody.compile_expression), evaluated by the
+   engine constructors atom / functor / listpair / makelist / ATOM_NIL (Sem/Machine.eval_expr), builds the term
+   the literal stands for (sden); to_python (Engine/GetValue.v, shared with C15) maps it to the prescribed
+   Python value; the atom table gives one object per name and engine, unification looks at names only. *)
 From Coq Require Import String.
 From Coq Require Import List NArith ZArith Arith.
 Import ListNotations.
-From YP Require Import Base.Str Term.Term Lang.Ast Lang.Lexer Lang.Cst Lang.Parser Lang.Unquote Lang.Literals Lang.Front.
+From YP Require Import Base.Str Term.Term Unify.Unify Unify.Mgu Lang.Ast Lang.Lexer Lang.Cst Lang.Parser Lang.Unquote Lang.Literals Lang.Front
+  Comp.IR Comp.CompileBody Sem.Machine Engine.GetValue Lang.Denote.
 
 (* quote s = ' s ' with \' for every quote in s.  For every text without backslash -- quotes, line
    breaks, any code point -- it is lexed as the single token STRING and unquoted back to s. *)
@@ -84,6 +87,60 @@ Theorem C16_anon_not_source : forall i v, rule_lang R_VARIABLE v -> anon_name i 
 Proof. exact anon_not_source. Qed.
 Print Assumptions C16_anon_not_source.
 
+(* LITERAL_DENOTATION: in an environment r that binds the Python variable V_<v> of every source variable v to
+   rho v, the constructor calls emitted for the literal t build exactly the term t denotes under rho -- for atoms,
+   integers, compound terms, [...] (makelist / ATOM_NIL), [..|T] (listpair) and variables, at any nesting *)
+Theorem C16_literal_denotation : forall t r rho, binds r rho (sterm_vars t) ->
+  eval_expr r (compile_expression t) = sden rho t.
+Proof. exact literal_denotation. Qed.
+Print Assumptions C16_literal_denotation.
+
+(* makelist([x1..xn]) = listpair(x1, ... listpair(xn, ATOM_NIL)) = the '.'/2 chain ending in [] *)
+Theorem C16_makelist_listpair_chain : forall r xs,
+  eval_expr r (ECall (s_ "makelist") [EList xs]) = eval_expr r (listpair_chain xs) /\
+  eval_expr r (listpair_chain xs) = fold_right cons_term (TAtom s_nil) (map (eval_expr r) xs).
+Proof. exact makelist_listpair_chain. Qed.
+Print Assumptions C16_makelist_listpair_chain.
+
+(* to_python specification on literals: lit_py pv t is the value the property text prescribes (atoms -> names,
+   [] -> [], ints, proper lists -> lists, compounds not named `.` -> (name, args), unbound -> None); py_of is the
+   structural specification of to_python proved for the engine's to_python in C15 *)
+Theorem C16_to_python_literal : forall pv rho, (forall x, py_of (rho x) = POk (pv x)) ->
+  forall t v, lit_py pv t = Some v -> py_of (sden rho t) = POk v.
+Proof. exact to_python_literal. Qed.
+Print Assumptions C16_to_python_literal.
+
+(* end to end: to_python of what the emitted constructor calls build *)
+Theorem C16_to_python_compiled_literal : forall pv rho r n s t v,
+  binds r rho (sterm_vars t) -> (forall x, py_of (rho x) = POk (pv x)) -> lit_py pv t = Some v ->
+  free_in s (sden rho t) -> to_python n s (eval_expr r (compile_expression t)) <> POof ->
+  to_python n s (eval_expr r (compile_expression t)) = POk v.
+Proof. exact to_python_compiled_literal. Qed.
+Print Assumptions C16_to_python_compiled_literal.
+
+(* terms built through the API are the ones the source literals unify with *)
+Theorem C16_api_term_unifies : forall t r1 r2 rho s,
+  binds r1 rho (sterm_vars t) -> binds r2 rho (sterm_vars t) -> wf s ->
+  eval_expr r1 (compile_expression t) = eval_expr r2 (compile_expression t) /\
+  exists n s', unify n s (eval_expr r1 (compile_expression t)) (eval_expr r2 (compile_expression t)) = UOk s' /\
+               wf s' /\ ext s s' /\ sat (sub_of s) s'.
+Proof. exact api_term_unifies. Qed.
+Print Assumptions C16_api_term_unifies.
+
+(* one object per name and engine: after atom(name) has returned o, every later atom(name) on the same table
+   returns o and leaves the table unchanged; ... *)
+Theorem C16_atom_identity : forall tb name fresh tb' fresh',
+  let '(o, tb1) := yp_atom name fresh tb in
+  later tb1 tb' -> fst (yp_atom name fresh' tb') = o /\ snd (yp_atom name fresh' tb') = tb'.
+Proof. exact atom_identity. Qed.
+Print Assumptions C16_atom_identity.
+
+(* ... yet atoms unify by name, whichever engine (table) made them *)
+Theorem C16_atom_unify_by_name : forall n s a b,
+  unify (S n) s (TAtom a) (TAtom b) = if str_eqb a b then UOk s else UFail.
+Proof. exact atom_unify_by_name. Qed.
+Print Assumptions C16_atom_unify_by_name.
+
 (* non-vacuity: a fact with a quoted atom containing a quote and a line break, a list pattern, a list,
    a numeral with leading zeros and two anonymous variables *)
 Example C16_nonvacuous :
@@ -94,5 +151,15 @@ Example C16_nonvacuous :
              c_body := BTrue |}] /\
   num_value (d "007") = 7%N /\
   sden (fun _ => TVar 0) (SPair (SAtom (d "a")) (SPair (SAtom (d "b")) (SVar (d "T")))) =
-    TFun (d ".") [TAtom (d "a"); TFun (d ".") [TAtom (d "b"); TVar 0]].
-Proof. repeat split; vm_compute; reflexivity. Qed.
+    TFun (d ".") [TAtom (d "a"); TFun (d ".") [TAtom (d "b"); TVar 0]] /\
+  (* the emitted code for [a,b|T] with V_T bound to [c] builds [a,b,c]; to_python gives the Python list *)
+  (let r := [(pyvar (d "T"), mk_list [TAtom (d "c")])] in
+   let t := SPair (SAtom (d "a")) (SPair (SAtom (d "b")) (SVar (d "T"))) in
+   binds r (fun _ => mk_list [TAtom (d "c")]) (sterm_vars t) /\
+   eval_expr r (compile_expression t) = mk_list [TAtom (d "a"); TAtom (d "b"); TAtom (d "c")] /\
+   lit_py (fun _ => PList [PStr (d "c")]) t = Some (PList [PStr (d "a"); PStr (d "b"); PStr (d "c")]) /\
+   to_python 9 [] (eval_expr r (compile_expression t)) = POk (PList [PStr (d "a"); PStr (d "b"); PStr (d "c")])).
+Proof.
+  repeat split; try (vm_compute; reflexivity).
+  intros v [<-|[]]. vm_compute. reflexivity.
+Qed.
